@@ -28,7 +28,8 @@ RULE = ("cases = (a) pipelines: scanner inputs (direct found_host calls, cache-f
         "with names containing separators, newlines, '#', spaces, commas, NUL, non-ASCII letters and digits, "
         "dots in every position, lengths {1,63,106,107,253,254,5000,70000}, addresses likewise; the emitted "
         "stream cut into reads of {1, 2, 1..5 (a record spans three and more reads), line length +-1, 4096, random}; "
-        "a scratch hosts file with foreign lines; "
+        "a scratch hosts file with foreign lines, among them the marked lines of other sshuttle instances whose "
+        "ports are digit-prefixes / -suffixes / -infixes of this session's port (and vice versa); "
         "(b) arbitrary host-list payloads handed to the client; (c) arbitrary scanner streams handed to the "
         "server under arbitrary chunkings (including over-long lines). Non-trivial = at least one record was "
         "emitted / skipped / delivered; distinct = distinct canonical input")
@@ -510,7 +511,7 @@ def line_shape_ok(line, port):
 
 def check_hosts_file(ctx, case, original, snaps, final, port):
     orig_lines = original.rstrip().split('\n')
-    mark = 'sshuttle-firewall-%d AUTOCREATED' % port
+    mark = '# sshuttle-firewall-%d AUTOCREATED' % port      # this instance's lines, and only these
     kept = [l for l in orig_lines if mark not in l]
     for hostmap, p, content in snaps:
         lines = content.rstrip('\n').split('\n')
@@ -681,6 +682,41 @@ def chunkings(rng, stream):
 HOSTS_FILES = ['127.0.0.1 localhost\n::1 ip6-localhost\n', '', '# only a comment',
                '1.2.3.4 keep # sshuttle-firewall-9999 AUTOCREATED\n10.0.0.1 a b c\n\n# x\n',
                '1.1.1.1 stale                  # sshuttle-firewall-12300 AUTOCREATED\n8.8.8.8 dns\n']
+
+
+def related_ports(port):
+    """Ports of OTHER sshuttle instances whose decimal text is related to this session's port: this port's
+    digits are a proper prefix / suffix / infix of theirs, theirs of this one's, neighbours, and an unrelated one."""
+    t = str(port)
+    out = set()
+    for d in '0', '1', '9':
+        out.add(t + d)            # this port is a proper prefix of the other
+        out.add(d.replace('0', '1') + t)   # ... a proper suffix
+        out.add('1' + t + d)      # ... an infix
+    for cut in (t[:-1], t[1:], t[1:-1], t[:2], t[-2:]):
+        out.add(cut)              # the other port is a prefix / suffix / infix of this one
+    out.update([str(port + 1), str(max(port - 1, 1)), '9999'])
+    return sorted({int(x) for x in out if x and 0 < int(x) <= 65535 and int(x) != port})
+
+
+def hosts_with_instances(rng, port, n=None):
+    """A hosts file that other sshuttle instances (serial use of the same file) have already written their
+    marked lines into, together with ordinary lines and stale lines of this session's own port."""
+    others = related_ports(port)
+    if n is not None:
+        others = rng.sample(others, min(n, len(others)))
+    lines = ['127.0.0.1 localhost', '# managed by hand']
+    for k, q in enumerate(others):
+        lines.append('%-30s %s' % ('10.%d.%d.1 other%d-%d' % (q // 256, q % 256, k, q),
+                                   '# sshuttle-firewall-%d AUTOCREATED' % q))
+    if rng.random() < 0.5:
+        lines.append('%-30s %s' % ('1.1.1.1 stale', '# sshuttle-firewall-%d AUTOCREATED' % port))
+    lines.append('8.8.8.8 dns')
+    rng.shuffle(lines)
+    return '\n'.join(lines) + '\n'
+
+
+PORT_PAIRS = [[0, 12300], [12299, 12300], [65535, 0], [1230, 0], [0, 1230], [123, 1230], [2300, 0], [0, 230], [1, 0], [0, 6553]]
 
 
 class Log:
@@ -922,6 +958,12 @@ def gen_cases(ctx, tmpdir):
     for ops in corpus:
         case = dict(kind='pipeline', ops=ops, encoding='utf-8', chunks=None, ports=[0, 12300], hosts_file=HOSTS_FILES[3])
         logs.append(pipeline_case(ctx, case, tmpdir))
+    # a hosts file shared (serially) with other instances whose ports are digit-prefixes / -suffixes / -infixes
+    for p6, p4 in [(1230, 0), (0, 12300), (0, 230), (2300, 0), (1, 0)]:
+        port = p6 or p4
+        case = dict(kind='pipeline', ops=[('found', 'alpha.example', '10.1.1.1'), ('found', 'beta', '10.1.1.2')],
+                    encoding='utf-8', chunks=None, ports=[p6, p4], hosts_file=hosts_with_instances(rng, port))
+        logs.append(pipeline_case(ctx, case, tmpdir))
     # histories of records for one name (the last announced value must be in force) and scanner sessions
     A, B = '10.0.0.1', '10.0.0.2'
     for ops in [[('found', 'h', A), ('found', 'h', B), ('found', 'h', A)],
@@ -961,15 +1003,19 @@ def gen_cases(ctx, tmpdir):
         logs.append(pipeline_case(ctx, case, tmpdir))
     for _ in range(ctx.scale(100, 2500)):
         case = dict(kind='pipeline', ops=rand_scanner_ops(rng), encoding=rng.choice(['utf-8', 'utf-8', 'ascii']),
-                    chunks=None, ports=rng.choice([[0, 12300], [12299, 12300], [65535, 0]]),
-                    hosts_file=rng.choice(HOSTS_FILES))
+                    chunks=None, ports=rng.choice(PORT_PAIRS), hosts_file=None)
+        if rng.random() < 0.5:
+            case['hosts_file'] = rng.choice(HOSTS_FILES)
+        else:
+            case['hosts_file'] = hosts_with_instances(rng, case['ports'][0] or case['ports'][1], n=rng.choice([2, 4, 20]))
         logs.append(pipeline_case(ctx, case, tmpdir))
     for p in [b'h,10.0.0.1\nh,10.0.0.2\nh,10.0.0.1\n', b'h,10.0.0.1 g,10.0.0.1 h,10.0.0.2 g,10.0.0.2 h,10.0.0.1 h,10.0.0.1\n',
               b'x\n', b'foo,1\n', b',\n', b'a,b,c\n', b'', b'\n', b'ok,1.2.3.4', b'name,1.2.3.4\nname,5.6.7.8\n']:
         logs.append(payload_case(ctx, p, tmpdir))
     for _ in range(ctx.scale(180, 4000)):
-        logs.append(payload_case(ctx, rand_payload(rng), tmpdir, ports=rng.choice([(0, 12300), (1024, 1025)]),
-                                 hosts_file=rng.choice(HOSTS_FILES)))
+        pp = tuple(rng.choice(PORT_PAIRS + [[1024, 1025]]))
+        hf = rng.choice(HOSTS_FILES) if rng.random() < 0.6 else hosts_with_instances(rng, pp[0] or pp[1], n=rng.choice([2, 4, 20]))
+        logs.append(payload_case(ctx, rand_payload(rng), tmpdir, ports=pp, hosts_file=hf))
     for _ in range(ctx.scale(120, 2000)):
         n = rng.choice([0, 1, 3, 8])
         lines = [bytes(rng.choice(b'ab,.1 \t\x00\xff') for _ in range(rng.choice([0, 1, 5, 40]))) for _ in range(n)]
